@@ -26,12 +26,14 @@ def obligations(tier):
                 if cl < 16 and al not in (0, 5):
                     continue
                 q = cl in (0, 1, 15, 16, 17, 31, 32, 33, 48, 49, 56) and al in (0, 5, 16, 17)
+                if not q and not (al in (0, 1, 5, 15, 16, 17, 33) or cl in (0, 1, 15, 16, 17, 31, 32, 33, 48, 49, 56)):
+                    continue    # thorough: every clen x boundary adlens, every adlen x boundary clens
                 obs.append(Ob("reject-%s-c%d-a%d" % (VNAME[v], cl, al), "C02/aead_chacha.c",
                               units=CHACHA_UNITS[v] + GLUE_UNITS, stubs=GLUE_STUBS,
                               defs={"VARIANT": v, "CLEN": cl, "ADLEN": al}, unwind=210, timeout=300,
                               tier="quick" if q else "thorough", family="reject-" + VNAME[v],
                               desc="decrypt of arbitrary (c, tag=correct^delta): accept <=> delta == 0; failure: mlen=0, output untouched or zeroed; clen<16 rejected; NULL-output mode same verdict",
-                              bounds="all key/nonce/ciphertext/ad/tag bytes; clen and adlen enumerated (quick 11x4, thorough 0..56 x 0..33)"))
+                              bounds="all key/nonce/ciphertext/ad/tag bytes; clen and adlen enumerated (quick 11x4, thorough every clen 0..56 x 7 boundary adlens and every adlen 0..33 x 11 boundary clens)"))
     for v in (0, 1):
         for cl in range(0, 97):
             q = cl in (0, 1, 15, 16, 17, 47, 48, 49, 80, 96)
